@@ -112,6 +112,12 @@ def build(spec):
                 F[i, i + 1] = q
                 F[i + 1, i] = q * np.array([1.0, -1.0, -1.0, -1.0])
         A = qalg.from_comps(F)
+    elif g == "imagq":
+        F = _rng(spec["seed"]).standard_normal((spec["m"], spec["n"], 4))
+        F[..., 0] = 0.0
+        if spec.get("tiny00"):
+            F[0, 0] *= float(spec["tiny00"])
+        A = qalg.from_comps(F)
     elif g == "realq":
         F = np.zeros((spec["m"], spec["n"], 4))
         F[..., 0] = _rng(spec["seed"]).standard_normal((spec["m"], spec["n"]))
@@ -208,7 +214,7 @@ def shape_of(spec):
     if not isinstance(spec, dict):
         return None
     g = spec.get("gen")
-    if g in ("gauss", "int", "psvd", "zeros", "real", "complex", "entry", "realq"):
+    if g in ("gauss", "int", "psvd", "zeros", "real", "complex", "entry", "realq", "imagq"):
         return (spec["m"], spec["n"])
     if g in ("herm", "unitary", "cI", "I_lowrank", "tri", "hess", "tridiag_herm"):
         return (spec["n"], spec["n"])
